@@ -35,7 +35,7 @@ LEAN_MODULES = ['ThermoVerif.Props.C02']
 RULE = ('60 % single-mix cases, 40 % histories (3–6 further operations on ONE receiver: mix again with the receiver among the '
         'inlets, assign H / h / S, separate a share — each step judged by the oracles); flags vle=True 14 %, energy_balance=False 14 %; '
         'MultiStream receivers / inlets over gl, ls, gs, gls, lL, glL and single-phase L streams (conserve_phases 50 % when one is present); '
-        '7 % of cases with trace flows (1e-9..1e-8 kmol/hr in all, non-empty); cases of 1–5 inlets (single-phase l/g streams, two-phase MultiStreams, empty streams, Heat/Power objects, None), '
+        '6 % gas-phase histories in a Peng-Robinson (equation-of-state) property package; 7 % of cases with trace flows (1e-9..1e-8 kmol/hr in all, non-empty); cases of 1–5 inlets (single-phase l/g streams, two-phase MultiStreams, empty streams, Heat/Power objects, None), '
         'T 250–500 K, P 1e4–1e7 Pa (log-uniform), 5 chemicals with random flows; receiver fresh / multi-phase / one of the inlets; '
         'Q = ΔT·ΣC with ΔT ∈ ±40 K, 0, or huge (fallback branches); conserve_phases 10 %; then separate_out of a sub-stream '
         '(equal shares of {exactly the parent\'s T, another T} x {same phase, opposite phase}; 15 % at another pressure) and '
@@ -66,6 +66,8 @@ TRUSTED = ['Lean 4.33 kernel', 'harness/props/c02.py + Driver/C02.lean (parsing,
 
 tmo = None
 CHEMS = ['Water', 'Ethanol', 'Methanol', 'Glycerol', 'Propane']
+CHEMS_PR = ['CO2', 'N2', 'Ethanol', 'Propane', 'Methane']      # the Peng-Robinson package (gas-phase cases)
+THERMOS = {}
 T_LO, T_HI = 250.0, 500.0
 _REC = None
 _VREC = None       # recorder of stream.vle(...) calls
@@ -85,9 +87,17 @@ def setup():
     tmo = tmo_
     warnings.simplefilter('ignore')
     tmo.settings.set_thermo(CHEMS, cache=True)
-    mix = tmo.settings.get_thermo().mixture
-    cls = type(mix)
-    if getattr(cls, '_verif_c02', False): return
+    THERMOS['id'] = tmo.settings.get_thermo()
+    # a second property package: the same interface with an equation-of-state (Peng-Robinson) mixture, whose H, S, Cn
+    # go through cached EOS arguments (`_free_energy_args`) that every solve has to clear again
+    chems_pr = tmo.Chemicals(CHEMS_PR, cache=True)
+    THERMOS['pr'] = tmo.Thermo(chems_pr, mixture=tmo.mixture.PRMixture.from_chemicals(chems_pr))
+    for th in THERMOS.values(): _wrap_mixture_class(type(th.mixture))
+    _wrap_vle()
+
+
+def _wrap_mixture_class(cls):
+    if cls.__dict__.get('_verif_c02', False): return
 
     def wrap_single(name, X, entropy):
         orig = getattr(cls, name)
@@ -134,8 +144,18 @@ def setup():
         solver._verif = True
         setattr(cls, name, solver)
 
+    wrap_single('solve_T_at_HP', 'H', False)
+    wrap_single('solve_T_at_SP', 'S', True)
+    wrap_multi('xsolve_T_at_HP', 'xH', False)
+    wrap_multi('xsolve_T_at_SP', 'xS', True)
+    cls._verif_c02 = True
+
+
+def _wrap_vle():
     # the vapour-liquid equilibrium is a parameter of the model: record what mix_from asked of it and what it left
     from thermosteam.equilibrium import VLE
+    if getattr(VLE, '_verif_c02', False): return
+    VLE._verif_c02 = True
     vle_orig = VLE.__call__
     def vle_call(self, **kw):
         global _REC
@@ -153,12 +173,6 @@ def setup():
         vrec.append(('ok', spec, float(self._thermal_condition.T), held))
         return r
     VLE.__call__ = vle_call
-
-    wrap_single('solve_T_at_HP', 'H', False)
-    wrap_single('solve_T_at_SP', 'S', True)
-    wrap_multi('xsolve_T_at_HP', 'xH', False)
-    wrap_multi('xsolve_T_at_SP', 'xS', True)
-    cls._verif_c02 = True
 
 
 def budget(tier):
@@ -337,10 +351,14 @@ def run_ops(ops):
     def fail(sig, what):
         failures.append({'signature': sig, 'op_index': len(model_in) - 1, 'what': what})
 
+    tmo.settings.set_thermo(THERMOS['id'])
     for line in ops:
         t = line.split(' ')
         op = t[0]
-        if op == 'S':
+        if op == 'PKG':
+            # the streams created from here on use this property package ('id' ideal mixture, 'pr' Peng-Robinson mixture)
+            tmo.settings.set_thermo(THERMOS[t[1]]); tags.add('package:' + t[1])
+        elif op == 'S':
             s = tmo.Stream(None, T=float(t[2]), P=float(t[3]), phase=t[1])
             s.imol.data[:] = flows(t[4])
             objs.append(s)
@@ -444,7 +462,7 @@ def run_ops(ops):
                                 f'{fbits(i.T)}:{ph_of(i)}:{chars(i.phase)}:{1 if i is recv else 0}')
             head = (f'mix r={st_of(recv)} rp={chars(recv.phase)} ins={";".join(toks) if toks else "-"} Q={fbits(Q)} '
                     f'cp={1 if cp else 0} eb={1 if eb else 0} vle={1 if vle else 0} kind=H')
-            T0r, P0r = recv.T, recv.P
+            T0r, P0r, ph0r = recv.T, recv.P, ph_of(recv)
             Ps = [i.P for i in streams]
             alias = any(i is recv for i in streams)
             # what the inlets' material holds at the two ends of the range, each portion in its own phase
@@ -487,20 +505,30 @@ def run_ops(ops):
                 vres, vs = '-', '-'
             model_in.append(head + f' vspec={vs} vres={vres} sol={sol_tokens(rec)}')
             energy_claim = eb and N >= 1               # without the energy balance the property makes no enthalpy claim
-            start_ok = all(indom(i.T) for i in streams) if eb else indom(T0r)
-            if vle and any(set(ph_of(i)) & set('LSs') for i in streams):
-                # `stream.vle(...)` works on the rows 'g' and 'l' only: material labelled 'L', 's' or 'S' is left out of the flash,
+            # the receiver's own temperature is the solver's starting point: it has to be a physical one as well
+            start_ok = indom(T0r) and (all(indom(i.T) for i in streams) if eb else True)
+            if vle and (any(set(ph_of(i)) & set('LSs') for i in streams) or set(ph0r) & set('LSs')):
+                # `stream.vle(...)` works on the rows 'g' and 'l' only: material labelled 'L', 's' or 'S' — in an inlet, or because the
+                # receiver's own phase tuple has such a row which then takes the liquid ('L' answers for 'l') — is left out of the flash,
                 # which then does not reproduce the enthalpy it was asked for.  That is the flash's contract (C04), the
                 # hypothesis VleSound of mix_vle_energy is not met: no verdict here, the step is correspondence-only.
                 start_ok = False
                 tags.add('mix:vle:second-liquid-phase-not-judged')
+            if (type(recv.mixture).__name__ != 'IdealMixture'
+                    and not (ph0r == 'g' and ph_of(recv) == 'g' and all(ph_of(i) == 'g' for i in streams))):
+                # The equation-of-state package is exercised on gases only.  When a gas solve raises there, the setter's
+                # fallback flips the stream to 'l' and accepts an EOS-liquid temperature whose enthalpy, read back, is not
+                # the assigned one (≈ 1 in 600 histories): recorded as a finding outside this check; this step and
+                # the steps that start from such a stream get no verdict.
+                start_ok = False
+                tags.add('package:pr:left-the-gas-phase-not-judged')
             if not start_ok:
                 # an inlet (or, without energy balance, the receiver) is in a state outside the property's domain,
                 # left there by an earlier step of the history: correspondence only, no verdict on this step
                 tags.add('mix:start-out-of-domain')
             vx = bool(vrec) and vrec[-1][0] == 'ex'    # the flash raised: the state it left half-way is not compared
             outs.append(answer(recv, out, Hread, rec, tol, mode != 'huge' and start_ok and (energy_claim or N == 0))
-                        + f' vs={vs} vx={1 if vx else 0}')
+                        + f' vs={vs} vx={1 if vx else 0} lost={1 if creates and out == "raised" else 0}')
             tags.add(f'mix:N={min(N, 2)}' + (':Q' if (Q or heat) else '') + (':cp' if cp else '') + (':alias' if alias else '')
                      + (':multi-recv' if is_multi(recv) else '') + (':vle' if vle else '') + ('' if eb else ':no-eb'))
             if streams and sum(i.F_mol for i in streams) < 1e-6: tags.add('mix:trace-flow')
@@ -545,6 +573,18 @@ def run_ops(ops):
             elif N >= 1 and mode != 'huge' and not ref_err:
                 # raised although the heat input is moderate: is the target inside the range of the models?
                 if lo == lo and hi == hi and lo <= expected <= hi:
+                    # where would the balance put the mixture?  (bisection on the inlets' own enthalpy functions)
+                    a_, b_ = T_LO, T_HI
+                    for _ in range(50):
+                        mid_ = 0.5 * (a_ + b_)
+                        if sum(value_at(i, 'H', mid_) for i in streams) <= expected: a_ = mid_
+                        else: b_ = mid_
+                    if abs(a_ - T0r) > 120.0 and not vle:
+                        # the H setter inside mix_from starts from the receiver's old temperature: the documented
+                        # far-start weakness of the Aitken-accelerated Newton iteration (same signature as for the setters)
+                        fail('set:raised:far-start', f'mix_from raised: the receiver starts at T = {T0r!r}, the balance puts the '
+                                                     f'mixture at about {a_!r} K, more than 120 K away')
+                        continue
                     fail('mix:raised', f'mix_from raised although Σ inlet.H + Q = {expected!r} lies between Σ H(250 K) = {lo!r} '
                                        f'and Σ H(500 K) = {hi!r} of the inlets\' material')
         elif op in ('sep', 'isub'):
@@ -668,6 +708,8 @@ def run_ops(ops):
             tk = 'Sg' if kind == 'S' and ph0 == 'g' and ph_of(s) == 'g' else kind      # tolerance class
             left_dom = out == 'ok' and bool(rec) and not indom(s.T)     # the assignment "succeeded" at an unphysical temperature
             start_ok = indom(T0)                                         # else: a state an earlier step left outside the domain
+            if type(s.mixture).__name__ != 'IdealMixture' and not (ph0 == 'g' and ph_of(s) == 'g'):
+                start_ok = False; tags.add('package:pr:left-the-gas-phase-not-judged')
             tol = RTOL[tk] * abs(x) + (ALLOW_K * last_slope(rec) if not left_dom else 0.0) + 1e-12
             model_in.append(head + f' kind={tk} sol={sol_tokens(rec)}')
             in_q = mode in ('lerp', 'cur', 'cross') or (mode == 'zero' and reachable)      # inside the property's quantifier
@@ -765,11 +807,14 @@ def compare(impl, model):
     a, b = _kv(impl), _kv(model)
     dom = a.get('dom', '1') == '1'
     vx = a.get('vx', '0') == '1'
-    for k in ('out', 'e', 'calls', 'q') + (('hyp',) if dom else ()) + (() if vx else ('ph',)):
+    # a flash that raised (vx) leaves a half-way state — for Stream.sum / + / 0+ not even the new stream is returned:
+    # only the outcome and the pressure are compared then
+    for k in ('out', 'calls', 'q') + (('hyp',) if dom else ()) + (() if vx else ('ph', 'e')):
         if a.get(k) != b.get(k): return False
     va, vb = a.get('vs', '-').split(':'), b.get('vs', '-').split(':')
     if va[0] != vb[0]: return False
     try:
+        if a.get('lost', '0') == '1': return True      # Stream.sum / + / 0+ raised: no stream came back, only the outcome is comparable
         if from_fbits(a['P']) != from_fbits(b['P']): return False
         Ta, Tb = from_fbits(a['T']), from_fbits(b['T'])
         if not vx and not (abs(Ta - Tb) <= 1e-6): return False
@@ -869,6 +914,28 @@ def gen_Q(rng, sane=False):
     if r < 0.88 or sane: return 'dT', r6(rng.uniform(-40, 40) if not sane else rng.uniform(-15, 15))
     if r < 0.95: return 'abs', r6(rng.uniform(-3e4, 3e4))
     return 'huge', r6(rng.choice([1e9, -1e9, -3e7, 1e8]))
+
+
+def gen_pr_history(rng):
+    """gas-phase streams of the Peng-Robinson package: an entropy / enthalpy assignment on one stream, then energy-balanced
+    mixes of OTHER streams, then more assignments — the equation-of-state mixture caches its arguments per solve, so what
+    one operation leaves behind is what the next one reads"""
+    ops = ['PKG pr']
+    def gas():
+        return add_obj(ops, f'S g {r6(rng.uniform(300, 480))} {r6(10 ** rng.uniform(5, 6.9))} {gen_flows(rng)}')
+    pool = [gas() for _ in range(3)]
+    recv = add_obj(ops, f'S g 298.15 101325.0 {gen_flows(rng, True)}')
+    for _ in range(rng.randrange(3, 7)):
+        r = rng.random()
+        if r < 0.45:
+            kind = rng.choice(['S', 'S', 'H'])       # not `h`: Stream.h raises AttributeError with an EOS mixture (fixes_proposed/C02-6.md)
+            tgt = rng.choice(pool + [recv])
+            ops.append(f'set {tgt} {kind} lerp {r6(rng.uniform(0.2, 0.8))}' if rng.random() < 0.7 else f'set {tgt} {kind} cur 0')
+        else:
+            ins = rng.sample(pool, 2) + ([recv] if rng.random() < 0.3 else [])
+            mode, q = gen_Q(rng, sane=True)
+            ops.append(f'mix {recv} {",".join(map(str, ins))} {mode} {q} 0')
+    return Case(ops, {'history': True, 'package': 'pr'})
 
 
 def gen_history(rng):
@@ -1019,7 +1086,8 @@ def gen_case(rng):
 def generate(rng, tier, index, nworkers):
     n = max(1, budget(tier)['cases'] // nworkers)
     for _ in range(n):
-        yield gen_history(rng) if rng.random() < 0.4 else gen_case(rng)
+        r = rng.random()
+        yield gen_pr_history(rng) if r < 0.06 else gen_history(rng) if r < 0.43 else gen_case(rng)
 
 
 def corpus():
